@@ -335,4 +335,84 @@ Proof.
   intros u Hu Hpos. exact (jump_law g rate choice Hnd rate_nonneg s' u Hi Hu Hpos).
 Qed.
 
+(* ------------------------------------------------------------------ *)
+(* no Python-level error: failing runs end in fuel, or in the full-data constructor after a
+   complete run -- and not even that when return_statuses contains every status in use *)
+Lemma cloop_rerr_run : forall st0 fuel t s e, cinv g rate s ->
+  rerr (cloop g rate choice infl rstats tmin tmax full st0 fuel t s) e ->
+  e = OutOfFuel \/ exists l1 t' s', crun t s l1 t' s' /\ cfinish g rstats tmin full st0 s' = Fail e.
+Proof.
+  intro st0. induction fuel as [|f IH]; intros t s e Hi H; rewrite cloop_unfold in H;
+    destruct (Qltb 0 (ld_total_weight key (cnbr s))) eqn:Et.
+  - apply rerr_expo_inv in H. destruct H as [[Hr0 _]|[d [Hr [Hd Hk]]]].
+    { apply Qltb_true in Et. rewrite Hr0 in Et. exfalso. exact (Qlt_irrefl 0 Et). }
+    unfold loop_body in Hk. destruct (xlt (t + d) tmax); [left; exact (rerr_fail_inv _ _ _ Hk)|right].
+    exists [], t, s. split; [constructor|].
+    destruct (cfinish_cases g rstats tmin full st0 s) as [[o [E _]]|[_ [e0 [E _]]]]; rewrite E in Hk;
+      [exfalso; exact (rerr_ret_inv _ _ _ Hk)|apply rerr_fail_inv in Hk; subst e0; exact E].
+  - right. exists [], t, s. split; [constructor|].
+    destruct (cfinish_cases g rstats tmin full st0 s) as [[o [E _]]|[_ [e0 [E _]]]]; rewrite E in H;
+      [exfalso; exact (rerr_ret_inv _ _ _ H)|apply rerr_fail_inv in H; subst e0; exact E].
+  - pose proof (proj1 (total_pos_iff s Hi) Et) as Hpos.
+    apply rerr_expo_inv in H. destruct H as [[Hr0 _]|[d [Hr [Hd Hk]]]].
+    { apply Qltb_true in Et. rewrite Hr0 in Et. exfalso. exact (Qlt_irrefl 0 Et). }
+    unfold loop_body in Hk. destruct (xlt (t + d) tmax) eqn:Ex.
+    + destruct (event_rerr st0 f (t + d) s e Hi Hpos Hk) as [u [s1 [Hu [He [Hi1 [Hru [[l0 Hc] Hb]]]]]]].
+      destruct (IH (t + d) s1 e Hi1 Hb) as [E|[l1 [t' [s' [Hrun Hfin]]]]]; [left; exact E|right].
+      exists ((CExpo (ld_total_weight key (cnbr s)) :: l0) ++ l1), t', s'. split; [|exact Hfin].
+      eapply crun_step; [|exact Hrun]. split; [exact Hpos|]. exists d, u, l0. repeat split; assumption.
+    + right. exists [], t, s. split; [constructor|].
+      destruct (cfinish_cases g rstats tmin full st0 s) as [[o [E _]]|[_ [e0 [E _]]]]; rewrite E in Hk;
+        [exfalso; exact (rerr_ret_inv _ _ _ Hk)|apply rerr_fail_inv in Hk; subst e0; exact E].
+  - right. exists [], t, s. split; [constructor|].
+    destruct (cfinish_cases g rstats tmin full st0 s) as [[o [E _]]|[_ [e0 [E _]]]]; rewrite E in H;
+      [exfalso; exact (rerr_ret_inv _ _ _ H)|apply rerr_fail_inv in H; subst e0; exact E].
+Qed.
+
+Lemma full_check_ok : forall st0 (log : list (Q * node * N)),
+  gnodes g <> [] -> (forall u, In u (gnodes g) -> In (st0 u) rstats) ->
+  Forall (fun e => In (snd e) rstats) log ->
+  full_check g rstats st0 log = Ok tt.
+Proof.
+  intros st0 log Hne Hst Hlog. unfold full_check. cbv zeta.
+  assert (Hc : filter (fun u => mem (st0 u) rstats) (gnodes g) = gnodes g).
+  { clear Hne. induction (gnodes g) as [|u l IH] in Hst |- *; [reflexivity|]. cbn [filter].
+    rewrite (proj2 (GillespieInv.mem_In _ _) (Hst u (or_introl eq_refl))). f_equal. apply IH.
+    intros v Hv. apply Hst. right. exact Hv. }
+  rewrite Hc.
+  assert (Hex : existsb (fun u => existsb (fun e : Q * node => negb (mem (snd e) rstats)) (node_events u log)) (gnodes g) = false).
+  { destruct (existsb _ (gnodes g)) eqn:E; [|reflexivity]. apply existsb_exists in E. destruct E as [u [_ Hb]].
+    apply existsb_exists in Hb. destruct Hb as [x [Hx Hn]]. unfold node_events in Hx. apply in_map_iff in Hx.
+    destruct Hx as [e [Ex He]]. apply filter_In in He. destruct He as [He _]. subst x. cbn [snd] in Hn.
+    rewrite Forall_forall in Hlog. pose proof (Hlog e He) as K. cbn beta in K.
+    rewrite (proj2 (GillespieInv.mem_In (snd e) rstats) K) in Hn. discriminate Hn. }
+  rewrite Hex. destruct (gnodes g); [contradiction Hne; reflexivity|reflexivity].
+Qed.
+
+Theorem complex_exec_never_crashes : forall (ic : node -> option N) fuel ds e tr,
+  (forall u, In u (gnodes g) -> ic u <> None) ->
+  full = false \/
+  (gnodes g <> [] /\ (forall u s, In u (gnodes g) -> ic u = Some s -> In s rstats) /\ (forall st u, In (choice st u) rstats)) ->
+  exec (complex g rate choice infl rstats tmin tmax full ic fuel) ds [] = (Err e, tr) ->
+  e = OutOfDraws \/ e = OutOfFuel.
+Proof.
+  intros ic fuel ds e tr Hic Hc H.
+  set (st0 := fun u => match ic u with Some s => s | None => 0%N end).
+  destruct (init_good g rate rstats tmin Hnd rate_nonneg st0) as [lc [He [Hg Hcalls]]].
+  unfold complex in H. fold st0 in H.
+  assert (Hall : forallb (fun u => match ic u with Some _ => true | None => false end) (gnodes g) = true).
+  { apply forallb_forall. intros u Hu. specialize (Hic u Hu). destruct (ic u); [reflexivity|contradiction Hic; reflexivity]. }
+  rewrite Hall, He in H. cbn [liftc] in H.
+  apply exec_rerr in H. destruct H as [H|H]; [left; exact H|right].
+  destruct (cloop_rerr_run st0 fuel tmin _ e (cg_inv g rate rstats _ Hg) H) as [E|[l1 [t' [s' [Hrun Hfin]]]]]; [exact E|exfalso].
+  destruct (crun_log _ _ _ _ _ Hrun Hg) as [evs [Hlog [_ [_ [Hel _]]]]].
+  unfold init_state in Hlog, Hel. cbn [cstat celog] in Hlog, Hel.
+  unfold cfinish in Hfin. destruct Hc as [Hf|[Hne [Hics Hch]]]; [rewrite Hf in Hfin; discriminate Hfin|].
+  destruct full; [|discriminate Hfin].
+  rewrite Hel, app_nil_r, rev_involutive in Hfin.
+  rewrite (full_check_ok st0 (ev_elog st0 evs) Hne) in Hfin; [discriminate Hfin| |].
+  - intros u Hu. unfold st0. specialize (Hic u Hu). destruct (ic u) as [s|] eqn:E; [apply (Hics u s Hu E)|contradiction Hic; reflexivity].
+  - clear - Hch. generalize st0. induction evs as [|x evs IH]; intro st; [constructor|]. cbn [ev_elog]. constructor; [cbn [snd]; apply Hch|apply IH].
+Qed.
+
 End CX.
